@@ -10,6 +10,9 @@ from kv import *
 import mc
 
 
+MAX_LISTED_VIOLATIONS = 25
+
+
 class Result:
     def __init__(self, pid, tier, seed):
         self.pid, self.tier, self.seed = pid, tier, seed
@@ -72,6 +75,10 @@ def classify(res, pid, desc, text, replay_obj, name):
             if f["signature"] not in [k["signature"] for k in res.known]:
                 res.known.append({"signature": f["signature"], "what": f.get("what", "")})
             return False
+    if len(res.violations) >= MAX_LISTED_VIOLATIONS:
+        # enough replay files to act on; the rest is only counted (the exit code is 1 anyway)
+        res.extra["violations_not_listed"] = res.extra.get("violations_not_listed", 0) + 1
+        return True
     path = write_replay(pid, name, replay_obj)
     res.violations.append({"desc": desc, "replay": path})
     return True
